@@ -509,6 +509,72 @@ def none_by_truthiness(model: Model, R: RuleResult, files: Set[str]) -> int:
     return n
 
 
+# ------------------------------------------------------------------------------------------------- TG: tolerance-guarded formulas
+TOL_CALLS = ("allclose", "isclose")
+
+
+def tolerance_guards(model: Model, R: RuleResult, files: Set[str]) -> int:
+    """A numerical kernel never switches formula on an approximate comparison.  `if torch.allclose(a, b): <short-cut>` applies the
+    short-cut to every input that is merely *close* to the special case (default tolerances 1e-5 / 1e-8 are huge next to float64
+    round-off), where the short-cut's result is simply wrong.  Exact tests (`==`, torch.equal) are fine."""
+    n = 0
+    for fi in model.all_functions():
+        if fi.module.relpath not in files:
+            continue
+        for node in own_nodes(fi.node):
+            test = node.test if isinstance(node, (ast.If, ast.IfExp, ast.While)) else None
+            if test is None:
+                continue
+            n += 1
+            # validation idiom: the guarded arm ends in a raise (message building aside) and there is no other arm
+            if isinstance(node, ast.If) and not node.orelse and node.body and isinstance(node.body[-1], ast.Raise):
+                continue
+            for c in ast.walk(test):
+                if isinstance(c, ast.Call) and ast.unparse(c.func).split(".")[-1] in TOL_CALLS:
+                    R.bad(fi, enclosing_stmt(node), "control flow depends on the approximate comparison `%s`: inputs that are only close to the special case take the "
+                          "special-case formula and get a wrong result" % ast.unparse(c)[:80])
+    R.ok("anchor files", "%d branch condition(s) in %d file(s): none uses allclose / isclose" % (n, len(files)))
+    ctl = ast.parse("def f(xl, xu):\n    if torch.allclose(xl, xu):\n        return 0\n    return 1\n")
+    fired = any(isinstance(c, ast.Call) and ast.unparse(c.func).split(".")[-1] in TOL_CALLS for x in ast.walk(ctl) if isinstance(x, ast.If) for c in ast.walk(x.test))
+    R.controls.append(dict(name="allclose-guard", ok=fired, detail="positive control fired=%s" % fired))
+    return n
+
+
+# ------------------------------------------------------------------------------------------------- MT: import-time tensor constants
+_TENSOR_CTORS = ("tensor", "zeros", "ones", "eye", "arange", "linspace", "as_tensor", "full", "empty", "rand", "randn")
+
+
+def import_time_tensors(model: Model, R: RuleResult, files: Set[str]) -> int:
+    """A tensor built when the module (or a class body) is imported freezes whatever default dtype is in force at that moment
+    (float32 unless the user changed it *before* importing).  Used later in float64 arithmetic it silently rounds the result to
+    single precision.  Such constants must state their dtype (the float64 tableaux of adaptive_rk.py do)."""
+    n = 0
+
+    def scan(body, where, relpath):
+        nonlocal n
+        for s_ in body:
+            if isinstance(s_, (ast.Assign, ast.AnnAssign)) and s_.value is not None:
+                for c in ast.walk(s_.value):
+                    if isinstance(c, ast.Call) and ast.unparse(c.func).startswith("torch.") and ast.unparse(c.func).split(".")[-1] in _TENSOR_CTORS:
+                        n += 1
+                        if any(k.arg == "dtype" for k in c.keywords):
+                            R.ok(where, "import-time constant with explicit dtype: `%s`" % norm_stmt(s_, 60))
+                        else:
+                            R.bad(where, s_, "tensor constant built at import time without a dtype: it takes the default dtype of that moment (float32) and rounds "
+                                  "every float64 computation it enters to single precision", file=relpath)
+    for m in model.modules.values():
+        if m.relpath not in files:
+            continue
+        scan(m.tree.body, "%s::<module>" % m.relpath, m.relpath)
+        for c in m.classes.values():
+            scan(c.node.body, c.fq, m.relpath)
+    R.ok("anchor files", "%d import-time tensor constant(s) in %d file(s), all with an explicit dtype" % (n, len(files)))
+    ctl = ast.parse("_SIGN = torch.tensor([1.0, -1.0])\n_OK = torch.tensor([1.0, -1.0], dtype=torch.float64)\n")
+    flags = [not any(k.arg == "dtype" for k in s_.value.keywords) for s_ in ctl.body]
+    R.controls.append(dict(name="module-level-constant", ok=flags == [True, False], detail="positive control fired=%s, dtype twin quiet=%s" % (flags[0], not flags[1])))
+    return n
+
+
 # ------------------------------------------------------------------------------------------------- CP: copy protocol
 COPY_HOOKS = ("__deepcopy__", "__copy__", "__getstate__", "__setstate__", "__reduce__", "__reduce_ex__", "__getnewargs__", "__getnewargs_ex__")
 
@@ -534,6 +600,7 @@ HS_PROPS = {"C%02d" % i for i in range(1, 21)}
 WF_PROPS = {"C01", "C03", "C05", "C16"}
 DA_PROPS = {"C02", "C04", "C06", "C08", "C09", "C10", "C13", "C16", "C17"}
 CP_PROPS = {"C20", "C10"}
+TG_PROPS = {"C07", "C12", "C14", "C15", "C16"}
 
 
 def common_rules(model: Model, prop: str, tier: str) -> List[RuleResult]:
@@ -553,6 +620,14 @@ def common_rules(model: Model, prop: str, tier: str) -> List[RuleResult]:
         out.append(R)
         R = RuleResult(prop, "NT", "optional parameters are resolved with `is None`, never by truthiness (anchor files)", min_instances=1)
         none_by_truthiness(model, R, files)
+        out.append(R)
+    if files:
+        R = RuleResult(prop, "MT", "tensor constants built at import time state their dtype (anchor files)", min_instances=1)
+        import_time_tensors(model, R, files)
+        out.append(R)
+    if prop in TG_PROPS and files:
+        R = RuleResult(prop, "TG", "no formula is selected by an approximate comparison (allclose / isclose) in the numerical kernels (anchor files)", min_instances=1)
+        tolerance_guards(model, R, {f for f in files if not f.endswith("_core/linop.py")})
         out.append(R)
     if prop in CP_PROPS:
         R = RuleResult(prop, "CP", "the copy / pickle protocol is not customised by any class of the package", min_instances=1)
